@@ -336,7 +336,7 @@ def brute_language(spec, maxlen):
             nf = form[:idx] + spec.prods[pi][1] + form[idx + 1 :]
             if sum(minlen[s] for s in nf) > maxlen:
                 continue
-            if len(nf) > maxlen + 6:
+            if len(nf) > 4 * maxlen + 8:  # nullable symbols make sentential forms longer than the sentence
                 continue
             if nf not in seen:
                 seen.add(nf)
